@@ -31,6 +31,10 @@ Line protocol of property C20.
 * `termf` / `vtermf` – as `term` / `vterm`, the harness calling `WriteForLinef(line, "%s", text)`.
 * `size <rows> <cols>` – `TermRows()` / `TermCols()` after the size has been set: `ok <rows> <cols>`.
 * `bterm <width> <trim> <history>` – `BufferedTerm` (final `Close()` appended): `ok b=<bytes> rows=<…> row=<…>` or `panic`.
+* `same <width> <trim> <history>` – the live writer and the buffered writer on the same history, both outputs on a
+  blank ONLCR screen of `maxLine + 3` rows: `ok same=<0|1> live=<row>,<col>,<vis> buf=<row>,<col>,<vis>` or `panic`
+  (buffered store).  When the hypotheses of `live_and_buffered_same_screen` hold the answer is the THEOREM's
+  (`same=1`, both cursors on row `maxLine + 1`, column 0, visible).
 -/
 namespace Rare.Drv.C20
 open Rare Rare.C20 Rare.Proto
@@ -194,6 +198,30 @@ def handle0 : List String → String
           if spec = machine then s!"ok b={Hex.enc bytes} {spec}"
           else s!"ok b={Hex.enc bytes} {spec} MODEL-ON-MACHINE-DIFFERS {machine}"
         else s!"ok b={Hex.enc bytes} {machine}"
+    | _, _, _ => "bad-args"
+  | ["same", w, tr, hs] =>
+    match w.toInt?, bit tr, parseHist hs with
+    | some width, some trim, some h =>
+      let c : Cfg := { E := handEsc, autoTrim := trim, cols := width }
+      match runB c VirtualTerm.new (h ++ [.c]) with
+      | .error _ => "panic"
+      | .ok (_, bbytes) =>
+        let r1 := runItems c TermWriter.new h
+        let r2 := r1.1.close c
+        let lbytes := r1.2 ++ r2.2
+        let ws := writesOfItems h
+        let ml := (maxLineOf ws).toNat
+        let H := ml + 3
+        let t1 := (Scr.blank width.toNat H true eaWidth).feedBytes lbytes
+        let t2 := (Scr.blank width.toNat H true eaWidth).feedBytes bbytes
+        let same := rowsOut t1 H == rowsOut t2 H && t1.row == t2.row && t1.col == t2.col && t1.cursorVisible == t2.cursorVisible
+        let machine := s!"same={b01 same} live={t1.row},{t1.col},{b01 t1.cursorVisible} buf={t2.row},{t2.col},{b01 t2.cursorVisible}"
+        -- hypotheses of `live_and_buffered_same_screen`
+        let hyp := !hasClose h && !ws.isEmpty && decide (1 ≤ width) && ws.all fun (l, t) => decide (0 ≤ l) && textHyp width trim false t
+        if hyp then
+          let spec := s!"same=1 live={ml + 1},0,1 buf={ml + 1},0,1"
+          if spec = machine then s!"ok {spec}" else s!"ok {spec} MODEL-ON-MACHINE-DIFFERS {machine}"
+        else s!"ok {machine}"
     | _, _, _ => "bad-args"
   | _ => "bad-op"
 
